@@ -569,6 +569,7 @@ func main() {
 	run.Floor("requests_accounted", int64(nBatches*perBatch/2))
 	run.Floor("connect_reset_during_dial_observed", int64(nBatches/4))
 	run.Floor("conntrack_conns_checked", 50)
+	sideWorlds(run, hb)
 	wiring.Run(run, "C13")
 	run.Finish()
 }
